@@ -155,7 +155,7 @@ def variants(base, base_res, tier, r):
         for j, k in enumerate(idxs):
             style = "cancel" if j % 2 == 0 else "timeout"
             wrap = (j % 7 == 3)
-            out.append(mk([{"kind": "cancel-op", "at_event": k, "style": style}],
+            out.append(mk([{"kind": "cancel-op", "at_event": k, "style": style, "pick": (j // 2) % 3}],
                           post_sends=300 if wrap else 2))
         # two faults in one run: loss + cancel, cancel + cancel, loss + later loss
         all_idx = list(range(max(first - 2, 0), n_events))
@@ -185,7 +185,7 @@ def variants(base, base_res, tier, r):
                             "extra_us": r.choice([1_300_000, 2_000_000]) if drv == "luba"
                             else r.choice([130_000, 400_000])}]))
         for j, k in enumerate(idxs):
-            out.append(mk([{"kind": "cancel-op", "at_event": k,
+            out.append(mk([{"kind": "cancel-op", "at_event": k, "pick": (j // 2) % 3,
                             "style": "cancel" if j % 2 == 0 else "timeout"}]))
     return out
 
@@ -362,7 +362,10 @@ def _hooks(plan, ctx):
             elif kind == "cancel-op":
                 def fire(f=f):
                     def go():
-                        for u, (rec, t) in ctx["tasks"].items():
+                        running = [(u, rt) for u, rt in ctx["tasks"].items() if rt[0].status == "running" and not rt[1].done()]
+                        # which of the callers in progress goes away: the one in flight (0) or one still queued behind it
+                        pick = running[min(f.get("pick", 0), len(running) - 1):][:1] if running else []
+                        for u, (rec, t) in pick:
                             if rec.status == "running" and not t.done():
                                 rec.cancel_requested = True
                                 ctx["cancelled"].append(u)
